@@ -73,12 +73,12 @@ Section corollaries.
   (* inputs of a task a worker holds: produced, and on its host or on their way; never being dropped *)
   Theorem held_task_inputs s w t h d :
     Inv J E s → wq s !! w = Some t → e_host E !! w = Some h → d ∈ ins J t →
-    d.1 ∈ finished s ∧ ((h, d) ∈ store s ∨ ∃ src, (d, src, h) ∈ xfers s) ∧ (h, d) ∉ purges s.
+    d ∈ published s ∧ ((h, d) ∈ store s ∨ ∃ src, (d, src, h) ∈ xfers s) ∧ (h, d) ∉ purges s.
   Proof.
     intros Hinv Hw Hh Hd. destruct (i_wq _ _ _ Hinv _ _ Hw) as (_ & Ho & Ht & _).
     destruct (i_ong _ _ _ Hinv _ _ Ho) as (Hc & _ & Hdisp & _).
     destruct (i_disp _ _ _ Hinv _ _ Hdisp) as (_ & _ & Hseen & _).
-    split; [apply (i_seen_fin _ _ _ Hinv); by apply Hseen|].
+    split; [apply (i_seen_pub _ _ _ Hinv); by apply Hseen|].
     split; [by apply (i_inputs _ _ _ Hinv w t)|].
     intros Hp. destruct (live_not_purged J E wf_nout s t d Hinv Ht Hc Hd) as [Hn _].
     by apply Hn, (i_purges _ _ _ Hinv h).
@@ -91,7 +91,7 @@ Section corollaries.
          dispatched s' = dispatched s ++ [(w, t)] ∧
          cs = ((λ p : ds * host, CTransmit p.1 p.2 h) <$> map_to_list srcs) ++ [CTask w t] ∧
          (∀ d src, srcs !! d = Some src → d ∈ ins J t ∧ (src, d) ∈ store s ∧ (src, d) ∉ purges s) ∧
-         (∀ d, d ∈ ins J t → d.1 ∈ finished s' ∧ ((h, d) ∈ store s' ∨ ∃ src, (d, src, h) ∈ xfers s') ∧ (h, d) ∉ purges s').
+         (∀ d, d ∈ ins J t → d ∈ published s' ∧ ((h, d) ∈ store s' ∨ ∃ src, (d, src, h) ∈ xfers s') ∧ (h, d) ∉ purges s').
   Proof.
     intros Hinv Hex. pose proof (exec_inv J E wf_nout s (LAssign w t srcs) Hinv) as Hinv'. rewrite Hex in Hinv'.
     simpl in Hex. destruct (assign_c J E (ctl s) w t srcs) as [[c h]| |e|e] eqn:Ha; try done.
@@ -123,8 +123,8 @@ Section corollaries.
   Qed.
 
   (* the worker starts (and finishes) its task only with every input in its host's store *)
-  Theorem start_needs_inputs s w s' cs :
-    exec J E s (LFinish w) = Next (s', cs) →
+  Theorem start_needs_inputs s w i s' cs :
+    exec J E s (LPublish w i) = Next (s', cs) →
     ∃ t h, wq s !! w = Some t ∧ e_host E !! w = Some h ∧ ∀ d, d ∈ ins J t → (h, d) ∈ store s.
   Proof.
     simpl. destruct (wq s !! w) as [t|]; [|done]. destruct (e_host E !! w) as [h|]; [|done].
